@@ -11,7 +11,7 @@
   the same container.
 -/
 import Prov.Props.C03B
-import Prov.Record
+import Prov.Heap
 
 namespace Prov.C13
 open Prov Prov.C03
@@ -178,5 +178,83 @@ example : (Record.addAttributes none mEx ⟨.entity, none, []⟩
     simp only [List.mem_singleton] at ha
     subst ha
     exact ⟨by decide +kernel, by decide +kernel⟩)
+
+end Prov.C13
+
+namespace Prov.C13
+open Prov Prov.Heap Prov.C03
+
+/-- writing back the manager a container already has changes no manager cell -/
+theorem mgrCell_setMgr_same (h : Heap) (c i : Nat) : (h.setMgr c (h.mgrOf c)).mgrCell i = h.mgrCell i := by
+  unfold setMgr mgrCell mgrOf
+  simp only [Array.getD_eq_getD_getElem?, Array.getElem?_setIfInBounds]
+  split
+  · rename_i hi
+    split
+    · rename_i hlt
+      subst hi
+      simp [mgrCell, Array.getD_eq_getD_getElem?, hlt]
+    · rename_i hlt
+      subst hi
+      have : h.mgrs[(h.cont c).mgr]? = none := by
+        rw [Array.getElem?_eq_none_iff]; omega
+      rw [this]
+  · rfl
+
+/-- **on the heap**: `new_record` (every factory, every reader's record-building step) with an identifier and arguments whose
+    names the container owns leaves *every* namespace manager of the heap as it was — the container's own, its document's,
+    everybody else's — whether the record is created or the call is refused -/
+theorem c13_newRecord_owned_mgrs (h : Heap) (c : Nat) (k : RecKind) (idArg : NameArg) (attrs : List AttrArg)
+    (hid : match idArg with | .qn q => (h.mgrOf c).Owns q | _ => True)
+    (hargs : ∀ a ∈ attrs, ArgOwned (h.mgrOf c) a) (i : Nat) :
+    (h.newRecord c k idArg attrs).1.mgrCell i = h.mgrCell i := by
+  unfold Heap.newRecord
+  simp only []
+  -- the identifier
+  have hv : (h.validName c idArg).1 = h.setMgr c (h.mgrOf c) := by
+    unfold Heap.validName
+    simp only []
+    rw [show ((h.mgrOf c).validName (h.parentOf c) idArg).1 = h.mgrOf c from validName_owned_fixed _ _ idArg hid]
+  have hm1 : ∀ j, (h.validName c idArg).1.mgrCell j = h.mgrCell j := fun j => by rw [hv]; exact mgrCell_setMgr_same h c j
+  generalize hvn : h.validName c idArg = vn at hm1
+  obtain ⟨h1, vid⟩ := vn
+  simp only at hm1 ⊢
+  have hmo : h1.mgrOf c = h.mgrOf c := by
+    have hc : h1.conts = h.conts := by
+      have := congrArg (fun p => p.1.conts) hvn
+      simpa [Heap.validName, setMgr] using this.symm
+    simp only [mgrOf, cont, hc]
+    rw [hm1]
+  have hpo : h1.parentOf c = h.parentOf c := by
+    have hc : h1.conts = h.conts := by
+      have := congrArg (fun p => p.1.conts) hvn
+      simpa [Heap.validName, setMgr] using this.symm
+    simp only [parentOf, cont, hc]
+    rw [hm1]
+    cases (h.mgrCell (h.conts.getD c default).mgr).parent with
+    | none => rfl
+    | some p => simp only; rw [hm1]
+  -- the constructor
+  have hmk : ∀ j, (h1.mkRecord c k vid attrs).1.mgrCell j = h1.mgrCell j := by
+    intro j
+    unfold mkRecord
+    split
+    · rfl
+    · simp only []
+      have hfix : (Record.addAttributes (h1.parentOf c) (h1.mgrOf c) ⟨k, vid, []⟩ attrs).1 = h1.mgrOf c :=
+        c13_owned_args_register_nothing _ _ _ attrs (by rw [hmo]; exact hargs)
+      split
+      · show (h1.setMgr c _).mgrCell j = h1.mgrCell j
+        rw [hfix]; exact mgrCell_setMgr_same h1 c j
+      · show (h1.setMgr c _).mgrCell j = h1.mgrCell j
+        rw [hfix]; exact mgrCell_setMgr_same h1 c j
+  generalize h1.mkRecord c k vid attrs = mk at hmk
+  obtain ⟨h2, e⟩ := mk
+  cases e with
+  | error err => simp only; rw [hmk, hm1]
+  | ok r =>
+    show (h2.addRecordRaw c r).mgrCell i = h.mgrCell i
+    have : (h2.addRecordRaw c r).mgrCell i = h2.mgrCell i := rfl
+    rw [this, hmk, hm1]
 
 end Prov.C13
